@@ -1,7 +1,7 @@
 (* C20 — property theorems only.  Each is closed by [exact] of a lemma from
    Proofs.v and followed by Print Assumptions. *)
 From Coq Require Import List Arith ZArith Bool.
-From Verif Require Import lib.Wire c20.Model c20.Spec c20.Proofs gen.Consts_c20.
+From Verif Require Import lib.Wire c20.Model c20.Spec c20.Proofs c20.Proofs_Probe gen.Consts_c20.
 Import ListNotations.
 
 (* THE property on traces: for every window size n >= 1, every threshold m and
@@ -114,6 +114,26 @@ Theorem c20_detector_trace_holds : forall p ops i,
 Proof. intros p ops i. exact (monitor_det_model ops p i). Qed.
 Print Assumptions c20_detector_trace_holds.
 
+(* "one request in every N is let through as a probe", at detector level and
+   over every history: while a counter is Blocked, never N consecutive pure
+   requests of its kind are refused, whatever other traffic (private-only
+   peers, the other kind, read-only detectors, dials that never reached a
+   transport) is interleaved — such traffic must not use up the probe slot *)
+Theorem c20_probe_slot_holds : forall k p ops i, pok p ->
+  probe_run k (nN (sel k p)) (fst (cview_of (sel k p))) 0 i (dtrace p ops) = [].
+Proof. intros k p ops i H. exact (probe_run_model k ops p 0 i (pinv_start k p H)). Qed.
+Print Assumptions c20_probe_slot_holds.
+
+(* everything [monitor_case] evaluates on a detector case accepts every model
+   trace from the configured initial pair *)
+Theorem c20_monitor_case_accepts_model : forall un um vn vm ops, (0 <= un)%Z -> (0 <= vn)%Z ->
+  let p := (mk_counter_opt un um, mk_counter_opt vn vm) in
+  monitor_det (cview_of (fst p)) (cview_of (snd p)) 0 (dtrace p ops) = [] /\
+  probe_run true (Z.to_nat un) (fst (cview_of (fst p))) 0 0 (dtrace p ops) = [] /\
+  probe_run false (Z.to_nat vn) (fst (cview_of (snd p))) 0 0 (dtrace p ops) = [].
+Proof. exact monitor_case_det_model. Qed.
+Print Assumptions c20_monitor_case_accepts_model.
+
 (* regenerated obligation: every BlackHoleSuccessCounter literal in /repo's
    non-test sources satisfies the precondition 1 <= N of the theorems above
    (bh_configs is re-read from the source on every run) *)
@@ -150,4 +170,21 @@ Proof. vm_compute. discriminate. Qed.
 
 Example monitor_rejects_private_removed :
   monitor_case [1; 2; 1; 0; 0;  10; 0; 1; 2; 0;  0; 0; 0; 0; 9; 0; 0; 0]%Z <> [].
+Proof. vm_compute. discriminate. Qed.
+
+(* udp N = 2, Min = 1: two failed dials block; then a private-only request that
+   bumps the counter (reported internals: requests = 1) makes the next two real
+   requests both refused: the probe slot was used up by the private request.
+   The probe clause alone rejects the trace ([monitor_det] does not). *)
+Example probe_rejects_slot_consumed :
+  probe_run true 2 0 0 0
+    ([(TDet false (DRecord (mkAddr true true false 0) false), DO [] (0, (0, 1, 0))%Z (9, (0, 0, 0))%Z);
+     (TDet false (DRecord (mkAddr true true false 0) false), DO [] (2, (0, 2, 0))%Z (9, (0, 0, 0))%Z);
+     (TDet false (DFilter [mkAddr true true false 0]), DO [false] (2, (1, 2, 0))%Z (9, (0, 0, 0))%Z);
+     (TDet false (DFilter [mkAddr true true false 0]), DO [false] (2, (2, 2, 0))%Z (9, (0, 0, 0))%Z)]%Z : list (top * dobs)) <> [].
+Proof. vm_compute. discriminate. Qed.
+
+(* a dialAddr that never reached a transport but changed a counter is rejected *)
+Example monitor_rejects_nodial_record :
+  monitor_case [1; 2; 1; 0; 0;  15; 0; 3;  0; 0; 1; 0;  9; 0; 0; 0]%Z <> [].
 Proof. vm_compute. discriminate. Qed.
